@@ -644,9 +644,12 @@ def generate_outconv(repo: Path, outdir: Path) -> dict:
     events = extract_out_events(repo)
     s += ['/-- (Round 4) per function with an out/output parameter, IN SOURCE ORDER: `_get_output` calls, aliasing guards',
           '    (`unalias:n|x~y` = `if np.may_share_memory(x, y): n = n.copy()`), whole-buffer stores, calls of out-taking functions of the',
-          '    same module, native kernel calls, returned names -/',
-          'def outEvents : List (String × List String) := [']
-    s += ['  (' + q(n) + ', [' + ', '.join(q(x) for x in ev) + ']),' for n, ev in events]
+          '    same module, native kernel calls, returned names',
+          '    — each event as (kind, text) -/',
+          'def outEvents : List (String × List (String × String)) := [']
+    s += ['  (' + q(n) + ', [' + ', '.join('(' + q(x.split(':', 1)[0] if not x.startswith('get_output') else 'get_output') + ', ' +
+                                            q(x.split(':', 1)[1] if not x.startswith('get_output') else x[len('get_output'):]) + ')'
+                                            for x in ev) + ']),' for n, ev in events]
     s[-1] = s[-1][:-1]
     s += [']', '', 'end Mahotas.Generated', '']
     changed = _write_if_changed(outdir / 'OutConv.lean', '\n'.join(s))
